@@ -28,7 +28,7 @@ RULE = ("streams: flat = members of the theorems' family (one 01 group; fixed el
         "items or of one-level groups, OCCURS n tables, counters of 1-2 digits anywhere before their table, a table last or followed by items); "
         "nested = layout_common.gen_tree(allow_odo, no REDEFINES): ODO tables inside groups, sibling groups, depth<=4 (outside the family, judged "
         "against Spec/Layout.v all the same); boundary = long X fields + an ODO table, record lengths around 16384, 20000 and 32768 so the RECFM_N "
-        "refill boundary is crossed; lrecl-none = lrecl None / 0 (known finding). Files of 2-30 records (boundary 3-6), count vectors per record "
+        "refill boundary is crossed; lrecl-none = lrecl None / 0 through RECFM N, V, VB (rows as with any lrecl) and F / FB (TypeError before any row). Files of 2-30 records (boundary 3-6), count vectors per record "
         "incl. 0 and max, each as RECFM N, V and VB; fixed = the same records padded to a common LRECL in a RECFM F / FB file. Per row: all table paths, refused index, first/last occurrence, item following each table, "
         "counters by name, plus sampled paths. Branch = 10*recfm + 1 (flat family) / 2 (outside) + 2 when the file is longer than the 32768-byte "
         "buffer; 90 = lrecl missing. distinct = distinct case lines.")
@@ -228,9 +228,12 @@ def inputs(ctx):
     # the same variable-length records in a fixed-length (RECFM F/FB) file: each record padded to the file's LRECL
     for i in range(40 if q else 500):
         yield "fixed", dict(kind="flat" if i % 2 == 0 else "nested", seed=rng.randrange(1 << 30), recfm=3, lrecl=None)
-    for i in range(6 if q else 30):
-        yield "lrecl-none", dict(kind="flat" if i % 2 == 0 else "nested", seed=rng.randrange(1 << 30), recfm=i % 3,
-                                 lrecl=None if i % 3 != 2 else 0)
+    # lrecl=None (what the docstring of COBOL_EBCDIC_File asks for with an OCCURS DEPENDING ON layout) and lrecl=0, through every
+    # reader; RECFM F / FB (flat family only: every member holds an ODO table, so no length can be computed) must refuse with TypeError
+    for i in range(16 if q else 96):
+        recfm = i % 4
+        yield "lrecl-none", dict(kind="flat" if (recfm == 3 or i % 8 < 4) else "nested", seed=rng.randrange(1 << 30), recfm=recfm,
+                                 lrecl=None if (i // 4) % 2 == 0 else 0, no_lrecl=True)
 
 
 def pick_nrec(rng):
@@ -342,10 +345,13 @@ def observe(ctx, c):
     names = assign_names(tree)
     rev = {v: k for k, v in names.items()}
     lrecl = c["lrecl"]
+    pad = lrecl
     if c["recfm"] == 3:
         # LRECL of the fixed-length file: the longest record of this file plus 0..3 bytes (derived from the seed)
-        lrecl = max(max(len(r) for r in recs), 1) + c["seed"] % 4
-    image = image_of(c["recfm"], recs, blocking, lrecl)
+        pad = max(max(len(r) for r in recs), 1) + c["seed"] % 4
+        if not c.get("no_lrecl"):
+            lrecl = pad              # ... and that is what the reader is told, except in the lrecl-none stream
+    image = image_of(c["recfm"], recs, blocking, pad)
     cls = [estruct.RECFM_N, estruct.RECFM_V, estruct.RECFM_VB, estruct.RECFM_F if c["seed"] % 2 else estruct.RECFM_FB][c["recfm"]]
     head = [tree_sx(tree), c["recfm"], [0] if lrecl is None else [1, lrecl],
             [[[k, v] for k, v in sorted(e.items())] for e in envs],
